@@ -26,6 +26,7 @@ struct Lane {
     grants: u32,
     arrivals: u64,
     done: bool,
+    dead: bool, // the thread panicked
 }
 #[derive(Default)]
 struct Gate {
@@ -69,7 +70,7 @@ fn hook(point: &'static str) {
         let gate = g.as_mut().unwrap();
         gate.lanes[lane].at = Some(point);
         gate.lanes[lane].arrivals += 1;
-        if point == "t_start" { gate.lanes[lane].done = false; }
+        if point == "t_start" { gate.lanes[lane].done = false; gate.lanes[lane].dead = false; }
     }
     CV.notify_all();
     loop {
@@ -116,7 +117,7 @@ const CFGS: &[Cfg] = &[
           grammar: "r = { a ~ b ~ c }\na = { \"x\" }\nb = { \"y\" | d }\nc = { \"z\" }\nd = { \"q\" }" },
 ];
 
-struct Loaded { names: Vec<String>, entries: Vec<(usize, usize)>, plain: Result<(), String> }
+struct Loaded { names: Vec<String>, entries: Vec<(usize, usize)>, abort_panics: Vec<bool>, plain: Result<(), String> }
 
 fn load(cfg: &Cfg) -> Loaded {
     let (_, rules) = pest_meta::parse_and_optimize(cfg.grammar).expect("grammar");
@@ -135,7 +136,20 @@ fn load(cfg: &Cfg) -> Loaded {
     for (r, _) in raw.iter() { if !names.contains(r) { names.push(r.clone()); } }
     names.sort();
     let entries = raw.iter().map(|(r, p)| (names.iter().position(|n| n == r).unwrap(), *p)).collect();
-    Loaded { names, entries, plain }
+    // does aborting at listener call i (returning true from then on) make vm.parse panic?
+    let n = raw.len();
+    let mut abort_panics = Vec::new();
+    for i in 0..n {
+        let (_, rules) = pest_meta::parse_and_optimize(cfg.grammar).expect("grammar");
+        let k = Arc::new(Mutex::new(0usize));
+        let vm = pest_vm::Vm::new_with_listener(rules, Box::new(move |_, _| {
+            let mut k = k.lock().unwrap();
+            *k += 1;
+            *k > i
+        }));
+        abort_panics.push(pvharness::catch(|| { let _ = vm.parse(cfg.rule, cfg.input); }).is_err());
+    }
+    Loaded { names, entries, abort_panics, plain }
 }
 
 fn show_event(ev: &DebuggerEvent, ld: &Loaded) -> String {
@@ -182,7 +196,11 @@ fn controller(cfg: &'static Cfg, ld: Arc<Loaded>, cap: usize, bps: Vec<usize>, c
             Cmd::Run => {
                 let (tx, rx) = sync_channel(cap);
                 let r = ctx.run(cfg.rule, tx);
-                if let Err(e) = r { sh.obs.lock().unwrap().push(format!("runerr:{}", esc(&e.to_string()))); }
+                match r {
+                    Ok(()) => {}
+                    Err(DebuggerError::PreviousRunPanic(_)) => sh.obs.lock().unwrap().push("run=panic".to_string()),
+                    Err(e) => sh.obs.lock().unwrap().push(format!("runerr:{}", esc(&e.to_string()))),
+                }
                 *sh.rx.lock().unwrap() = Some(rx); // the previous receiver is dropped only now
             }
             Cmd::Cont => {
@@ -237,7 +255,7 @@ fn controller(cfg: &'static Cfg, ld: Arc<Loaded>, cap: usize, bps: Vec<usize>, c
 // the scheduler: force one schedule, report what happened
 // ------------------------------------------------------------------------------------------
 const STEP_TIMEOUT_MS: u64 = 2000;
-const HANG_WINDOW_MS: u64 = 150;
+const HANG_WINDOW_MS: u64 = 100;
 
 fn new_epoch(free: bool) {
     with_gate(|g| {
@@ -274,7 +292,8 @@ fn force(cfg: &'static Cfg, ld: &Arc<Loaded>, cap: usize, bps: &[usize], cmds: &
             break;
         }
         let (at, done) = with_gate(|g| (g.lanes[lane].at, g.lanes[lane].done));
-        trace.push(format!("{}:{}", ch, match at { Some(p) => p, None => if done { if lane == C { "end" } else { "done" } } else { "?" } }));
+        let dead = with_gate(|g| g.lanes[lane].dead);
+        trace.push(format!("{}:{}", ch, match at { Some(p) => p, None => if dead { "dead" } else if done { if lane == C { "end" } else { "done" } } else { "?" } }));
     }
     // final status: did the controller get through its commands?  if not, is anything able to move?
     let fin = *sh.finished.lock().unwrap();
@@ -294,7 +313,7 @@ fn force(cfg: &'static Cfg, ld: &Arc<Loaded>, cap: usize, bps: &[usize], cmds: &
     let deadline = Instant::now() + Duration::from_millis(5000);
     while !*sh.cleaned.lock().unwrap() && Instant::now() < deadline {
         if let Ok(slot) = sh.rx.try_lock() { if let Some(rx) = slot.as_ref() { while rx.try_recv().is_ok() {} } }
-        wait_until(2, |_| false);
+        wait_until(1, |_| false);
     }
     if *sh.cleaned.lock().unwrap() { let _ = th.join(); }
     let obs = sh.obs.lock().unwrap().join(",");
@@ -302,7 +321,23 @@ fn force(cfg: &'static Cfg, ld: &Arc<Loaded>, cap: usize, bps: &[usize], cmds: &
 }
 
 fn main() {
-    pvharness::quiet_panics();
+    let loud = std::env::var("C17_LOUD").is_ok();
+    std::panic::set_hook(Box::new(move |info| {
+        if loud { eprintln!("{}", info); }
+        let last = LAST.with(|l| l.get());
+        if !last.is_empty() && lane_of(last) == P {
+            let my_epoch = EPOCH.with(|e| e.get());
+            if let Ok(mut g) = GATE.lock() {
+                let gate = g.as_mut().unwrap();
+                if gate.epoch == my_epoch && !gate.free {
+                    gate.lanes[P].at = None;
+                    gate.lanes[P].dead = true;
+                    gate.lanes[P].arrivals += 1;
+                }
+            }
+            CV.notify_all();
+        }
+    }));
     *GATE.lock().unwrap() = Some(Gate { epoch: 0, ..Default::default() });
     verif_hooks::set_callback(Some(hook));
     let loaded: Vec<Arc<Loaded>> = CFGS.iter().map(|c| Arc::new(load(c))).collect();
@@ -323,7 +358,7 @@ fn main() {
             let (seen, fin) = with_gate(|g| (g.points_seen, g.seen_final));
             writeln!(out, "MODE\t{}", if seen == 0 { "nohook" } else if fin { "fixed" } else { "literal" }).unwrap();
             for (c, ld) in CFGS.iter().zip(loaded.iter()) {
-                let es: Vec<String> = ld.entries.iter().map(|(r, p)| format!("{}:{}", r, p)).collect();
+                let es: Vec<String> = ld.entries.iter().zip(ld.abort_panics.iter()).map(|((r, p), b)| format!("{}:{}:{}", r, p, *b as u8)).collect();
                 writeln!(out, "CFG\t{}\t{}\t{}\t{}", c.id, es.join(","), if ld.plain.is_ok() { "E" } else { "X" }, ld.names.join(",")).unwrap();
             }
         }
